@@ -152,6 +152,7 @@ def run(chk: Check) -> None:
     run_glue_unbox_borrows(chk, ix)
     run_preallocated_fill_bound(chk, ix)
     run_refcount_edge_sets(chk, ix)
+    run_hooks_outside_init(chk, ix)
     base = ix.cls(OP)
     ops = [c for c in base.all_subclasses() if c.module.name == "mypyc.ir.ops" and "sources" in c.methods and not any(isinstance(n, ast.Raise) for n in c.methods["sources"].node.body)]
     if len(ops) < 35:
@@ -1067,3 +1068,92 @@ def run_refcount_edge_sets(chk: Check, ix) -> None:
                     r21.violation(key, f.loc(c), f"parameter `{p}` receives `{norm(a)}`, a value of the {as_} block: on an edge into a join block the {as_} set differs from the {ps} set (borrowed-ness is a must-analysis), so a parameter that still holds the caller's reference is released (or a needed acquire is skipped) on that edge only")
     if n < 4:
         raise AnalysisError(f"refcount.py: only {n} source_/target_ arguments found in calls between its functions")
+
+
+def run_hooks_outside_init(chk: Check, ix) -> None:
+    """R06.22: classes whose compiled hooks run on an object without a completed __init__ get no always-defined attributes."""
+    import re
+    r22 = chk.rule("R06.22", "codegen/emitclass.generate_class installs user-defined methods into tp_new and tp_finalize; CPython calls those on an object whose __init__ has not run (tp_new) or has raised half-way (tp_finalize runs on every deallocation). An attribute inferred 'always defined' is read without the undefined check, so analysis/attrdefined.analyze_always_defined_attrs_in_class has to give up (its early `return` test, helper predicates followed) for every dunder the generators of those two slots look up, and a test for an inherited-downwards hook (`__del__`: an instance of a subclass runs the subclass's finalizer over the base's attributes) also consults `subclasses()`", floor=2)
+    ec = ix.module("mypyc.codegen.emitclass")
+    ad = ix.module("mypyc.analysis.attrdefined")
+    gc = ec.functions.get("generate_class")
+    an = ad.functions.get("analyze_always_defined_attrs_in_class")
+    if gc is None or an is None:
+        raise AnalysisError("emitclass.generate_class / attrdefined.analyze_always_defined_attrs_in_class not found")
+    dunder = re.compile(r"^__[a-z]+__$")
+
+    def looked_up(node: ast.AST) -> set[str]:
+        out = set()
+        for c in ast.walk(node):
+            if isinstance(c, ast.Call) and call_name(c) in ("get_method", "has_method") and c.args and isinstance(c.args[0], ast.Constant) and isinstance(c.args[0].value, str) and dunder.match(c.args[0].value):
+                out.add(c.args[0].value)
+            if isinstance(c, ast.Compare) and len(c.ops) == 1 and isinstance(c.ops[0], ast.Eq) and isinstance(c.left, ast.Attribute) and c.left.attr == "name":
+                k = c.comparators[0]
+                if isinstance(k, ast.Constant) and isinstance(k.value, str) and dunder.match(k.value):
+                    out.add(k.value)
+        return out
+
+    def closure(mod, f, depth=3) -> list:
+        seen, todo = [f], [(f, 0)]
+        while todo:
+            g, d = todo.pop()
+            if d >= depth:
+                continue
+            for c in ast.walk(g.node):
+                if isinstance(c, ast.Call) and isinstance(c.func, ast.Name) and c.func.id in mod.functions:
+                    h = mod.functions[c.func.id]
+                    if h not in seen:
+                        seen.append(h)
+                        todo.append((h, d + 1))
+        return seen
+
+    # the local names whose value lands in fields["tp_new"] / fields["tp_finalize"]
+    slots: dict[str, set[str]] = {}
+    for a in ast.walk(gc.node):
+        if isinstance(a, ast.Assign) and isinstance(a.targets[0], ast.Subscript) and norm(a.targets[0].value) == "fields" and isinstance(a.targets[0].slice, ast.Constant) and a.targets[0].slice.value in ("tp_new", "tp_finalize"):
+            slots.setdefault(a.targets[0].slice.value, set()).update(n.id for n in ast.walk(a.value) if isinstance(n, ast.Name))
+    if set(slots) != {"tp_new", "tp_finalize"}:
+        raise AnalysisError(f"generate_class: fields[...] stores found for {sorted(slots)} (expected tp_new and tp_finalize)")
+    local_defs = {norm(a.targets[0]): a.value for a in ast.walk(gc.node) if isinstance(a, ast.Assign) and isinstance(a.targets[0], ast.Name)}
+    hooks: dict[str, str] = {}
+    for slot, names in sorted(slots.items()):
+        for c in ast.walk(gc.node):
+            if not (isinstance(c, ast.Call) and isinstance(c.func, ast.Name) and c.func.id in ec.functions):
+                continue
+            if not any(isinstance(x, ast.Name) and x.id in names for x in c.args):
+                continue
+            found = set()
+            for g in closure(ec, ec.functions[c.func.id]):
+                found |= looked_up(g.node)
+            for x in c.args:
+                if isinstance(x, ast.Name) and x.id in local_defs:
+                    found |= looked_up(local_defs[x.id])
+            for d in found - {"__init__"}:
+                hooks.setdefault(d, slot)
+    if not {"__new__", "__del__"} <= set(hooks):
+        raise AnalysisError(f"emitclass: the tp_new / tp_finalize generators look up {sorted(hooks)} (expected at least __new__ and __del__)")
+
+    # the give-up test: the first `if ...: return` of the analysis, helper predicates followed
+    giveup = next((s for s in an.node.body if isinstance(s, ast.If) and len(s.body) == 1 and isinstance(s.body[0], ast.Return) and isinstance(s.test, ast.BoolOp)), None)
+    if giveup is None:
+        raise AnalysisError("analyze_always_defined_attrs_in_class: no give-up test (`if a or b or ...: return`) found")
+    tested: dict[str, list] = {}
+    for d in looked_up(giveup.test):
+        tested.setdefault(d, []).append(giveup.test)
+    for c in ast.walk(giveup.test):
+        if isinstance(c, ast.Call) and isinstance(c.func, ast.Name) and c.func.id in ad.functions:
+            for g in closure(ad, ad.functions[c.func.id], depth=2):
+                for d in looked_up(g.node):
+                    tested.setdefault(d, []).append(g.node)
+    for d, slot in sorted(hooks.items()):
+        key = f"a class with a compiled {d} ({slot}) gets no always-defined attributes"
+        if d not in tested:
+            r22.violation(key, an.loc(giveup), f"generate_class calls the user's {d} through {slot}, which CPython invokes on an object whose __init__ did not complete, but the give-up test of analyze_always_defined_attrs_in_class ({sorted(tested)}) does not mention it: `self.attr` in that method is compiled without the undefined check and dereferences NULL")
+            continue
+        r22.ok(key, an.loc(giveup))
+        if slot == "tp_finalize":
+            key2 = f"the {d} test also covers subclasses that define it"
+            if any(isinstance(c, ast.Call) and call_name(c) == "subclasses" for n in tested[d] for c in ast.walk(n)):
+                r22.ok(key2, an.loc(giveup))
+            else:
+                r22.violation(key2, an.loc(giveup), f"only the class itself is asked for {d}: an instance of a subclass that defines {d} runs it over the attributes this class declared always defined (the subclass inherits them through the MRO walk) when this class's __init__ raised")
